@@ -206,6 +206,11 @@ class Base:
                 return v.term, 'real'
             if v.t.kind == 'bool':
                 return z3.If(v.term, z3.IntVal(1), z3.IntVal(0)), 'int'
+            if v.t.kind == 'optint':
+                # Optional[int] used as a number: only meaningful where the code has established `is not None`
+                # (arithmetic on None raises TypeError in CPython: an obligation that it is not None is generated)
+                from .types import OPTINT as _OI
+                return _OI.acc('oi_val')(v.term), 'int'
         raise VCError('not numeric: %r' % (v,))
 
     def num2(self, a, b, st):
